@@ -1234,6 +1234,10 @@ func (ctx Ctx) exprSpecial(e ast.Expr, isSpecial bool) coq.Expr {
 	case *ast.StarExpr:
 		return ctx.derefExpr(e.X)
 	case *ast.TypeAssertExpr:
+		if _, ok := ctx.typeOf(e).(*types.Tuple); ok {
+			ctx.unsupported(e, "type assertion with a second (ok) result")
+			return nil
+		}
 		// TODO: do something with the type
 		return ctx.expr(e.X)
 	case *ast.FuncLit:
@@ -1760,7 +1764,7 @@ func (ctx Ctx) multipleAssignStmt(s *ast.AssignStmt) coq.Binding {
 	if len(s.Rhs) > 1 {
 		ctx.unsupported(s, "multiple assignments on right hand side")
 	}
-	rhs := ctx.expr(s.Rhs[0])
+	rhs := ctx.exprSpecial(s.Rhs[0], len(s.Lhs) == 2)
 
 	if s.Tok != token.ASSIGN {
 		// This should be invalid Go syntax anyway
